@@ -90,6 +90,14 @@ StepTable ==
   \o (IF "c08" \in StepQ THEN SetToSeq(SQPages) ELSE <<>>)
   \o (IF "c13" \in StepQ THEN SetToSeq(QLoc) \o SetToSeq(SQGetH) ELSE <<>>)
 
+\* C08, a client walking the pages WHILE headers are ingested: the last request of every step fetches the whole list (its
+\* last element is the tip of that moment), the first request of the next step continues from that element - which the
+\* step in between may have turned stale (409) or left on the longest chain (the page that follows it)
+WalkAll      == IF "c08" \in StepQ THEN <<[k |-> "page", a |-> <<TipH + 1, NoKey>>, r |-> MerklePage(TipH + 1, NoKey)]>> ELSE <<>>
+WalkContinue == IF "c08" \in StepQ
+                  THEN SetToSeq({[k |-> "page", a |-> <<2, key>>, r |-> MerklePage(2, key)'] : key \in {rows[Tip].root}})   \* key: the OLD tip's root
+                  ELSE <<>>
+
 -----------------------------------------------------------------------------
 Snap(r, n, f(_)) == [k \in 1 .. n |-> IF (k - 1) \in DOMAIN r THEN f(r[k - 1]) ELSE -9]
 SnapSt(r, n)     == [k \in 1 .. n |-> IF (k - 1) \in DOMAIN r THEN r[k - 1].st ELSE "-"]
@@ -98,7 +106,7 @@ GetC(x) == x.cum
 
 Obs == [st  |-> SnapSt(rows', next'), ht |-> Snap(rows', next', GetH),
         cum |-> Snap(rows', next', GetC), tip |-> TipOf(rows'),
-        q   |-> IF StepQ = {} THEN <<>> ELSE StepTable']
+        q   |-> IF StepQ = {} THEN <<>> ELSE WalkContinue \o StepTable' \o WalkAll']
 
 MCInit == Init /\ hist = <<>> /\ nres = 0 /\ nrst = 0 /\ shape \in Shapes
 
